@@ -334,6 +334,42 @@ pub fn format(report: &TaxReport) -> Result<Vec<u8>, PdfError> {
     Ok(pdf)
 }
 
+/// Verification hook (compiled only with `--cfg velikodniy_cgt_tool_verif`): the text runs of the
+/// compiled Typst document, page by page in frame order, i.e. the strings the PDF shows, without
+/// going through PDF export and a text extractor.
+///
+/// # Errors
+/// Returns `PdfError::TypstCompilation` if the template does not compile for this report.
+#[cfg(velikodniy_cgt_tool_verif)]
+pub fn verif_text_runs(report: &TaxReport) -> Result<Vec<String>, PdfError> {
+    use typst::layout::{Frame, FrameItem, PagedDocument};
+
+    fn walk(frame: &Frame, out: &mut Vec<String>) {
+        for (_, item) in frame.items() {
+            match item {
+                FrameItem::Group(group) => walk(&group.frame, out),
+                FrameItem::Text(text) => out.push(text.text.to_string()),
+                _ => {}
+            }
+        }
+    }
+
+    let data = build_template_data(report)?;
+    let engine = TypstEngine::builder()
+        .main_file(TEMPLATE)
+        .fonts([ROBOTO_REGULAR, ROBOTO_BOLD])
+        .build();
+    let doc: PagedDocument = engine
+        .compile_with_input(data)
+        .output
+        .map_err(|e| PdfError::TypstCompilation(e.to_string()))?;
+    let mut out = Vec::new();
+    for page in &doc.pages {
+        walk(&page.frame, &mut out);
+    }
+    Ok(out)
+}
+
 pub struct PdfFormatter;
 
 impl Formatter for PdfFormatter {
